@@ -235,3 +235,82 @@ Definition spec_c_b (s : setup) (y : delivery) (v : verdict) : bool :=
   | Some b => spec_d_b (configure b y) v
   | None => true
   end.
+
+(* ------------------------------------------------------------- the confirmation method
+   "... and EVERY subject-confirmation InResponseTo equals it": the property does not ask which Method a
+   SubjectConfirmation names.  The correlation, status and shape clauses are therefore the ones above, read on the
+   delivery without its methods.  Only the completeness clause has to know them - a well-correlated Response can be
+   expected to be accepted when some confirmation can be used under its method (bearer with data, holder-of-key with
+   data carrying a KeyInfo, sender-vouches with data) and none of them is one the receiver cannot evaluate (a method
+   it does not know, sender-vouches without data).  With bearer confirmations only this is the clause above
+   (Methods.accepted_when_fine_m_bearer, Methods.spec_dm_bearer). *)
+Definition confirms (c : cm * scd) : bool :=
+  match c with
+  | (Bearer, Data _) | (HokKey, Data _) | (SenderVouches, Data _) => true
+  | _ => false
+  end.
+
+Definition unusable (c : cm * scd) : bool :=
+  match c with
+  | (OtherMethod, _) | (SenderVouches, NoData) => true
+  | _ => false
+  end.
+
+Definition accepted_when_fine_m (ym : delivery_m) (v : verdict) : Prop :=
+  let x := resp (base ym) in
+  forall i ctx scs, well_correlated x i ctx -> version x = (2, 0)%nat -> status_top x = SUCCESS ->
+    assertions x = [{| n_authn := 1; subject := Some scs |}] ->
+    existsb confirms (tag (hd [] (methods ym)) scs) = true ->
+    existsb unusable (tag (hd [] (methods ym)) scs) = false ->
+    v = Identity (Some ctx).
+
+(* "EVERY subject-confirmation InResponseTo equals it": a SubjectConfirmationData that carries no InResponseTo does
+   not answer the request either ([correlated] above compares the values that are there; this clause is the strict
+   reading, which the code enforces in loads() and again in get_subject) *)
+Definition every_data_answers (x : input) (v : verdict) : Prop :=
+  allow_unsolicited x = false -> forall cf, v = Identity cf ->
+    forall a scs d, In a (assertions x) -> subject a = Some scs -> In (Data d) scs -> d = irt x.
+
+Definition every_data_answers_b (x : input) (v : verdict) : bool :=
+  allow_unsolicited x || negb (is_identity v)
+  || forallb (fun a => match subject a with
+                       | Some scs => forallb (fun s => match s with Data d => opt_eqb String.eqb d (irt x) | NoData => true end) scs
+                       | None => true
+                       end) (assertions x).
+
+Definition spec_dm (ym : delivery_m) (v : verdict) : Prop :=
+  let y := base ym in
+  (browser (via y) = true -> correlated (resp y) v /\ every_data_answers (resp y) v)
+  /\ status_respected (resp y) v /\ shape_respected (resp y) v
+  /\ (browser (via y) = true -> well_addressed y = true ->
+      accepted_when_fine_m ym v /\ status_raised_when_fine (resp y) v).
+
+Definition accepted_when_fine_m_b (ym : delivery_m) (v : verdict) : bool :=
+  let x := resp (base ym) in
+  match well_correlated_b x, assertions x with
+  | Some (i, ctx), [a] =>
+      match subject a with
+      | Some scs =>
+          if version_is_20 x && String.eqb (status_top x) SUCCESS && (n_authn a =? 1)%nat
+             && existsb confirms (tag (hd [] (methods ym)) scs) && negb (existsb unusable (tag (hd [] (methods ym)) scs))
+          then verdict_eqb v (Identity (Some ctx)) else true
+      | None => true
+      end
+  | _, _ => true
+  end.
+
+Definition spec_dm_b (ym : delivery_m) (v : verdict) : bool :=
+  let y := base ym in
+  (negb (browser (via y)) || (correlated_b (resp y) v && every_data_answers_b (resp y) v))
+  && status_respected_b (resp y) v && shape_respected_b (resp y) v
+  && (negb (browser (via y) && well_addressed y)
+      || (accepted_when_fine_m_b ym v && status_raised_when_fine_b (resp y) v)).
+
+Definition spec_cm (s : setup) (ym : delivery_m) (v : verdict) : Prop :=
+  forall b, meaning (opt s) = Some b -> spec_dm (configure_m b ym) v.
+
+Definition spec_cm_b (s : setup) (ym : delivery_m) (v : verdict) : bool :=
+  match meaning (opt s) with
+  | Some b => spec_dm_b (configure_m b ym) v
+  | None => true
+  end.
